@@ -28,6 +28,7 @@ type corsCfg struct {
 	Before   []corsCfg `json:"before,omitempty"`
 	ViaGroup bool      `json:"viagroup,omitempty"`
 	Table    int       `json:"table"` // 0 = plain table, 1 = table reached through a history, WithTrace
+	Inherit  bool      `json:"inherit,omitempty"` // the option is the group's; the router is made by Group.New without options (the option list is built twice)
 }
 
 func (c corsCfg) String() string {
@@ -41,6 +42,9 @@ func (c corsCfg) String() string {
 	}
 	if c.Table == 1 {
 		s += " table=history+trace"
+	}
+	if c.Inherit {
+		s += " (NewGroup option inherited by Group.New; a second group built from the same slices before)"
 	}
 	return s
 }
@@ -82,6 +86,11 @@ func corsConfigs() []corsCfg {
 			c.ViaGroup = via
 			out = append(out, c)
 		}
+	}
+	// inherited through a group: the same Option value (and the caller's slices) pass through option building repeatedly
+	for _, c := range []corsCfg{listA, {Origins: []string{"https://a", "https://b"}, Headers: []string{"Content-Type", "X-Tok"}, Exposed: []string{"X-E"}, MaxAge: 600}} {
+		c.Inherit = true
+		out = append(out, c)
 	}
 	// the same decision table on a route table that was reached through a history, with WithTrace
 	n := len(out)
@@ -182,6 +191,18 @@ func tokenSet(s string) string {
 	return strings.Join(t, ",")
 }
 
+// tokenSetExact is tokenSet without case folding.
+func tokenSetExact(s string) string {
+	var t []string
+	for _, x := range strings.Split(s, ",") {
+		if x = strings.TrimSpace(x); x != "" {
+			t = append(t, x)
+		}
+	}
+	sort.Strings(t)
+	return strings.Join(t, ",")
+}
+
 func contains(l []string, s string) bool {
 	for _, x := range l {
 		if x == s {
@@ -214,7 +235,11 @@ func corsRouter(c corsCfg) (r *Router, pv any, bad bool) {
 		if c.Table == 1 {
 			opts = append(opts, mux.WithTrace(hv.TraceH()))
 		}
-		if c.ViaGroup {
+		if c.Inherit {
+			opt := c.option()
+			newGroup(opt).New("first", nil) // an earlier user of the same Option value / slices
+			r = newGroup(append([]mux.Option{opt}, opts...)...).New("r", nil)
+		} else if c.ViaGroup {
 			var gopts []mux.Option
 			for _, b := range c.Before {
 				gopts = append(gopts, b.option())
@@ -382,7 +407,7 @@ func corsJob(raw json.RawMessage) (any, error) {
 		if cred != wantCred {
 			rep("C12.credentials", "credentials-mismatch", q, "Access-Control-Allow-Credentials: "+cred, wantCred)
 		}
-		if got, want := tokenSet(h.Get("Access-Control-Expose-Headers")), tokenSet(strings.Join(c.Exposed, ",")); got != want {
+		if got, want := tokenSetExact(h.Get("Access-Control-Expose-Headers")), tokenSetExact(strings.Join(c.Exposed, ",")); got != want {
 			rep("C12.expose", "expose-headers-mismatch", q, got, want)
 		}
 		if !anyOrigin && !varyHas(h, "Origin") {
@@ -401,6 +426,8 @@ func corsJob(raw json.RawMessage) (any, error) {
 			default:
 				if want := tokenSet(strings.Join(c.Headers, ",")); gotAH != want {
 					rep("C12.preflight", "allow-headers-mismatch", q, gotAH, want)
+				} else if got, want := tokenSetExact(h.Get("Access-Control-Allow-Headers")), tokenSetExact(strings.Join(c.Headers, ",")); got != want {
+					rep("C12.preflight", "allow-headers-respelled", q, got, want+" (exactly as configured)")
 				}
 			}
 			wantAge := ""
